@@ -74,6 +74,13 @@ class GarbageCollector:
         """
         stats = {"data_files": 0, "manifest_files": 0, "manifest_lists": 0}
 
+        # 0. Load in-flight protection markers BEFORE reading metadata. A
+        # transaction removes its markers only after its commit point, so any
+        # transaction whose marker is already gone is visible to the metadata
+        # read below; reading metadata first leaves a window in which a commit
+        # lands (and drops its markers) between the two reads.
+        protected_files = self._load_inflight_protection(inflight_timeout_ms)
+
         # 1. Refresh metadata to get latest view
         metadata = self.metadata_manager.refresh()
         if not metadata:
@@ -130,8 +137,7 @@ class GarbageCollector:
         logger.info(f"Found reachable: {len(reachable_manifest_lists)} manifest lists, "
                     f"{len(reachable_manifests)} manifests, {len(reachable_data_files)} data files")
 
-        # 3. Load in-flight protection markers (and sweep abandoned ones)
-        protected_files = self._load_inflight_protection(inflight_timeout_ms)
+        # 3. In-flight protection (loaded in step 0)
         if protected_files:
             logger.info(f"Protecting {len(protected_files)} in-flight files from GC")
 
